@@ -30,6 +30,9 @@ ASSUMPTIONS = [
     "(in_domain); MonkeyType's ImportBlockStub renders only `from m import a, b`",
 ]
 PARTIAL = [
+    "sources with several small statements on one line (`a; b`) are abstracted one statement per small statement: exact for "
+    "the specification's clauses, not for libcst's leading-import-block rule, so for them only the property clauses and "
+    "the behaviour are checked, not model = implementation",
     "the behavioural half (the result imports and the workload returns the same values) is tested on every case by "
     "executing source and result in fresh interpreters, not proved",
     "concrete syntax (comments, blank lines) is outside the model",
@@ -90,6 +93,19 @@ DIRECTED = [
     ([], ["area_of"], 0, {"alias": True}),
     ([("import os", "t")], ["origin", "helper"], 0, {"alias": True}),
     ([("from shapes import Circle", "t")], ["area_of", "thing", "payload"], 0, {"alias": True}),
+    # `import m` in the source against `import m as a` in the stub, and the reverse
+    ([("import geo.pts", "t")], ["origin"], 0, {"alias": True}),
+    ([("import typing_helpers", "t"), ("import os", "t")], ["helper"], 0, {"alias": True}),
+    ([("import geo.pts as gp", "t")], ["origin"], 0, {"alias": "module"}),
+    ([("import shapes as shp, os", "t"), ("import typing_helpers as th", "m")], ["area_of", "helper"], 0, {"alias": "module"}),
+    # TYPE_CHECKING blocks local to a function / class body hold what the stub needs at module level
+    ([("from shapes import Circle", "N")], ["area_of"], 0),
+    ([("from geo.pts import Point", "K"), ("from shapes import Circle", "K")], ["area_of", "origin"], 0),
+    # hand-written stub `import shapes` + dotted annotation: libcst adds `from shapes import Circle` (kf_apply_extra_rebind)
+    ([("from other import Circle", "t")], ["area_of"], 0, {"alias": "module"}),
+    # several small statements on one line
+    ([("from shapes import Circle", "S")], ["area_of"], 0),
+    ([("import os", "t"), ("from geo.pts import Point", "S"), ("from shapes import Square", "S")], ["origin", "pick"], 0),
 ]
 
 FX_MODULES = ("shapes", "geo.pts", "other", "typings", "typing_helpers", "mypy_extensions_compat")
@@ -140,9 +156,13 @@ def build_case(i, source, stub, overwrite, fx_root, meta=None):
     c["changed"] = applied != source
     c["newly"] = sorted(repr(n) for n in newly)
     try:
-        c["term"] = "CCase (%s) (%s) (%s) (%s) %s %s" % (
-            G.reify_module(stub), G.reify_module(source), G.reify_module(applied), G.reify_module(out),
-            common.coq_list(G.reify_item(n) for n in sorted(newly, key=repr)), common.coq_bool(c["changed"]))
+        flags = {}
+        c["term"] = "CCase (%s) (%s) (%s) (%s) %s %s %s" % (
+            G.reify_module(stub, flags), G.reify_module(source, flags), G.reify_module(applied, flags),
+            G.reify_module(out, flags),
+            common.coq_list(G.reify_item(n) for n in sorted(newly, key=repr)), common.coq_bool(c["changed"]),
+            common.coq_bool(not flags))
+        c["exact"] = not flags
     except (G.Unreifiable, SyntaxError) as e:
         c["error"] = f"result not reifiable: {type(e).__name__}: {e}"[:600]
     with open(G.mod_path(fx_root, c["mod"] + "_src"), "w") as f:
@@ -216,11 +236,11 @@ def evaluate(ctx, cases, fx_root):
 CLAUSE_NAMES = ["head_is_future_import", "new_items_under_TYPE_CHECKING", "no_new_runtime_import", "source_imports_in_place",
                 "runtime_names_bound", "generated_class_bases_bound", "model_eq_impl", "libcst_assumptions",
                 "kf_shadow", "kf_apply_extra", "TYPE_CHECKING_bound_before_block",
-                "no_second_copy_under_TYPE_CHECKING", "no_empty_TYPE_CHECKING_block_added"]
+                "no_second_copy_under_TYPE_CHECKING", "no_empty_TYPE_CHECKING_block_added", "kf_rebind"]
 
 
 def describe(c, code, cl, beh):
-    failing = [n for k, (n, v) in enumerate(zip(CLAUSE_NAMES, cl or [])) if not v and (k < 6 or k >= 10)]
+    failing = [n for k, (n, v) in enumerate(zip(CLAUSE_NAMES, cl or [])) if not v and (k < 6 or 10 <= k <= 12)]
     bits = []
     if failing:
         bits.append("clauses false: " + ", ".join(failing))
@@ -232,7 +252,7 @@ def describe(c, code, cl, beh):
 
 def run(ctx):
     rnd = random.Random(ctx.seed * 7919 + 16)
-    n = 110 if ctx.tier == "quick" else 2000
+    n = 140 if ctx.tier == "quick" else 2000
     fx_root = os.path.join(ctx.work, "fx")
     os.makedirs(fx_root)
     fx = _load_fixture(fx_root)
@@ -261,9 +281,11 @@ def run(ctx):
                 src = G.gen_source(rnd, fx, directed=forced, package=bool(opts.get("pkg")))
                 if rnd.random() < 0.3 and all(f in G.ALIAS_STUBS for f in src["funcs"]):
                     opts["alias"] = True
+                elif rnd.random() < 0.15 and all(f in G.MODULE_STUBS for f in src["funcs"]):
+                    opts["alias"] = "module"
             modname = (G.PKG + "." if opts.get("pkg") else "") + f"t{i}_src"
-            if opts.get("alias"):        # hand-written stub whose new imports carry aliases
-                stub = G.alias_stub(src["funcs"])
+            if opts.get("alias"):        # hand-written stub whose new imports carry aliases / import the module itself
+                stub = G.alias_stub(src["funcs"], G.MODULE_STUBS if opts["alias"] == "module" else None)
             else:
                 stub = G.make_stub(modname, fx_root, src, rnd, fx, k)
             for o in opts:
@@ -315,9 +337,13 @@ def run(ctx):
         beh_bad = bool(b) and b[0] is False
         if code in (2, 21, 22, 23) or beh_bad:
             rec["what"] = describe(c, code, clauses.get(i), b)
-            # a behavioural failure is excused only by the class that lets source imports move (kf_shadow)
+            # a behavioural failure is excused only by the class that lets source imports move (kf_shadow) or, inside
+            # kf_apply_extra, by the exact sub-class in which the unmoved new import rebinds a run-time name (kf_rebind)
+            rebind = bool(rec["clauses"].get("kf_rebind"))
             if code in FINDING_OF and (not beh_bad or code in (21, 23)):
                 rec["finding"] = FINDING_OF[code]
+            elif code == 22 and beh_bad and rebind:
+                rec["finding"] = "kf_apply_extra_rebind"
             failures.append(rec)
         elif code in (1, 3):
             rec["what"] = ("malformed case (harness)" if code == 3 else "model and implementation differ") + \
@@ -330,16 +356,16 @@ def run(ctx):
     failures.sort(key=lambda f: (1 if f.get("finding") else 0))
     return {
         "evaluations": len(cases), "distinct_nontrivial": len(nontrivial),
-        "rule": "39 directed witnesses (the design-phase defects and their neighbours), then random sources: optional docstring / "
+        "rule": "48 directed witnesses (the design-phase defects and their neighbours), then random sources: optional docstring / "
                 "__future__ import, 0-5 import statements from a 32-entry pool (import a.b, aliases, star, typing, "
                 "mypy_extensions, clashing names) placed at the top, after a statement, in a function, under an existing "
-                "TYPE_CHECKING block (also aliased), in try/except, in one-line try / def / if suites, or in the else / elif branch of the TYPE_CHECKING statement; a quarter of the targets are modules of a package and also use relative imports (from .m / .. / .a.b) whose tails coincide with the stub's absolute modules; 1-3 functions whose stub is rendered by MonkeyType's own "
-                "build_module_stubs_from_traces (k in {0,5}) or, for ~10%, hand-written with aliased imports (from a import b as c, import a.b as d); every case goes through the real apply step, "
+                "TYPE_CHECKING block (also aliased), in try/except, in one-line try / def / if suites, in TYPE_CHECKING blocks local to a function or class body, on `;`-joined lines (those cases are compared with the specification only, not with the model), or in the else / elif branch of the TYPE_CHECKING statement; a quarter of the targets are modules of a package and also use relative imports (from .m / .. / .a.b) whose tails coincide with the stub's absolute modules; 1-3 functions whose stub is rendered by MonkeyType's own "
+                "build_module_stubs_from_traces (k in {0,5}) or, for ~10%, hand-written with aliased imports (from a import b as c, import a.b as d) or plain module imports (import a.b); every case goes through the real apply step, "
                 "get_newly_imported_items and apply_stub_using_libcst(..., True); verdict in Coq; then source and result are "
                 "imported in fresh interpreters and run() compared; the results of all directed and a quarter of the random "
                 "cases are then the source of a second application of the same stub (re-application stream). non-trivial = the stub brings a newly imported item and "
                 "the source has an import; distinct by hash of the reified case",
-        "samples": [{"source": c["source"], "stub": c["stub"], "output": c["output"]} for c in cases[39:42]],
+        "samples": [{"source": c["source"], "stub": c["stub"], "output": c["output"]} for c in cases[48:51]],
         "distribution": dist, "failures": failures, "mismatches": mismatches,
         "relation": "module_eqb (confine stub src applied) out  /\\  set_eqb (newly stub src) impl_newly",
     }
